@@ -120,6 +120,12 @@ fn script_locked_twin(o: &MultiEraOutput) -> Option<Vec<u8>> {
     let t = a.first()? >> 4;
     if t <= 6 && t % 2 == 0 { let mut b = a.clone(); b[0] = ((t + 1) << 4) | (a[0] & 0x0f); Some(b) } else { None }
 }
+/// the same Shelley address with its payment key hash replaced by ee..ee (key-locked addresses only)
+fn foreign_key_twin(o: &MultiEraOutput) -> Option<Vec<u8>> {
+    let a = o.address().ok()?.to_vec();
+    let t = a.first()? >> 4;
+    if t <= 6 && t % 2 == 0 && a.len() >= 29 { let mut b = a.clone(); for x in &mut b[1..29] { *x = 0xee; } Some(b) } else { None }
+}
 fn with_entry<'b>(utxos: &UTxOs<'b>, k: &MultiEraInput<'b>, o: MultiEraOutput<'b>) -> UTxOs<'b> {
     let mut u = UTxOs::new(); for (a, b) in utxos.iter() { u.insert(a.clone(), if a == k { o.clone() } else { b.clone() }); } u
 }
@@ -131,6 +137,14 @@ fn entry_side<'b>(txs: &[MultiEraTx], env: &Environment, utxos: &UTxOs<'b>, cs: 
         let Some((k, o)) = utxos.iter().find(|(a, _)| *a == input) else { continue };
         if let Some(addr) = script_locked_twin(o) { if let Some(o2) = edit_entry(o, Some(&addr), None) {
             must_reject(&format!("the output spent by input #{i} locked by a script (payment part of its address read as a script hash) with no such script witnessed"), txs, env, &with_entry(utxos, k, o2), cs); } }
+    }
+    // ---- a spent or collateral key-locked entry belongs to another key: nobody signed for it (whether or not the witness set carries a script)
+    for (what, list) in [("input", tx.inputs()), ("collateral input", tx.collateral())] {
+        for (i, input) in list.iter().enumerate() {
+            let Some((k, o)) = utxos.iter().find(|(a, _)| *a == input) else { continue };
+            if let Some(addr) = foreign_key_twin(o) { if let Some(o2) = edit_entry(o, Some(&addr), None) {
+                must_reject(&format!("the output behind {what} #{i} locked by the payment key hash ee..ee, for which there is no witness"), txs, env, &with_entry(utxos, k, o2), cs); } }
+        }
     }
     if !scripts { return; }
     let colls: Vec<_> = tx.collateral().iter().filter_map(|c| utxos.iter().find(|(a, _)| *a == c)).collect();
